@@ -345,7 +345,7 @@ def run_solver(body, timeout=20, solver="z3", label="", keep=None):
         shutil.copy(path, keep)
     os.unlink(path)
     first = out.split("\n", 1)[0].strip() if out else ""
-    if first.startswith("(error") or (first not in ("sat", "unsat") and "(error" in out):
+    if first.startswith("(error") or (first not in ("sat", "unsat", "unknown", "timeout") and "(error" in out):
         status = "error"
     elif first == "unsat":
         status = "unsat"
@@ -365,7 +365,9 @@ def run_solver(body, timeout=20, solver="z3", label="", keep=None):
     STATS["max_query_s"] = max(STATS["max_query_s"], dt)
     bs = STATS["by_solver"].setdefault(solver, {"queries": 0, "solver_s": 0.0})
     bs["queries"] += 1; bs["solver_s"] += dt
-    if len(QUERY_LOG) < 40:
+    if status == "error":
+        QUERY_LOG.append({"label": label, "status": status, "s": round(dt, 3), "bytes": len(body), "solver": solver, "raw": out[:300]})
+    elif len(QUERY_LOG) < 40:
         QUERY_LOG.append({"label": label, "status": status, "s": round(dt, 3), "bytes": len(body), "solver": solver})
     # "diff two solvers": in the thorough tier every 8th decided query is re-solved with z3 5.1 (short cap);
     # a sat/unsat contradiction is a harness error
